@@ -17,7 +17,7 @@ Definition b91_enc_step (st : N * N * list N) (b : N) : N * N * list N :=
 
 Definition b91_digits (src : bytes) : list N :=
   let '(queue, nbits, out) := fold_left b91_enc_step src (0, 0, []) in
-  rev (if 0 <? nbits then
+  frev (if 0 <? nbits then
          (if (7 <? nbits) || (90 <? queue) then queue / 91 :: queue mod 91 :: out else queue mod 91 :: out)
        else out).
 
@@ -53,7 +53,7 @@ Definition b91_decode (y : bytes) : res bytes :=
   | Some ds =>
     let '(queue, nbits, v, out) := fold_left b91_dec_step ds (0, 0, None, []) in
     match v with
-    | None => Ok (rev out)
-    | Some v0 => Ok (rev ((N.lor queue (N.shiftl v0 nbits)) mod 256 :: out))
+    | None => Ok (frev out)
+    | Some v0 => Ok (frev ((N.lor queue (N.shiftl v0 nbits)) mod 256 :: out))
     end
   end.
